@@ -62,6 +62,13 @@ def scenarios(tier):
                 S('tunnel-upstream-drips', [('send', CONNECT), ('wait_recv', len(ACK) + 5 + 15), ('wait_eof',)],
                   {'resumes': True, '_min_time': drips[-1][0] + T + 3.5, '_expect_rx_prefix': ACK + b'hello' + b'drip0drip1drip2'},
                   og={('10.0.0.2', 443): (lambda drips=drips: TimedOrigin(greeting=[b'hello'], schedule=drips))})
+                # upstream activity that is NOT client traffic: the client uploads 40 kB and goes silent; the upstream
+                # drains it slowly (7 kB every T/4 over 4 KiB buffers), so the proxy keeps getting upstream
+                # write-ready events -- the silent client is idle all the same and must be reaped on time
+                S('tunnel-upload-slow-upstream', [('send', CONNECT), ('wait_recv', len(ACK) + 5), ('send', b'U' * 40000), ('wait_eof',)],
+                  {'_min_time': 7 * T + 3.5},
+                  og={('10.0.0.2', 443): (lambda T=T: TimedOrigin(greeting=[b'hello'], reads=[((k + 1) * T / 4.0, 7000) for k in range(16)]))},
+                  sockbuf=4096)
                 # pending output: the client does not read while a large response is queued; it resumes reading
                 # after more than the timeout -- nothing may be lost, and the idle clock restarts at the last flush
                 big = b'HTTP/1.1 200 OK\r\nContent-Length: 300000\r\n\r\n' + stamp(300000, 4)
@@ -143,7 +150,7 @@ def run(tier):
     return netcheck.run(PROP, tier, scenarios(tier), check, 0, None, det_every=5,
                         rule='timeouts x reaper phase offsets x timed traces (silence, half request, after an exchange, activity '
                              'resuming 1 tick / 2 ticks / half a timeout before the deadline, three keep-alives in a row, tunnel '
-                             'with and without client activity, upstream pushing data on its own clock, output pending across the deadline) x {threadless, threaded}, '
+                             'with and without client activity, upstream pushing data on its own clock, upstream draining an upload slowly while the client is silent, output pending across the deadline) x {threadless, threaded}, '
                              'under a virtual clock advanced by select() timeouts; plus an idle connection beside a continuously busy tunnel, '
                              'where every busy loop iteration costs 10 ms of virtual time')
 
